@@ -196,27 +196,48 @@ Lemma has_errors_add c st : has_errors (p_errs (add c st)) = true.
 Proof. unfold add. cbn [p_errs]. rewrite has_errors_app. cbn. apply Bool.orb_true_r. Qed.
 
 (** a versions block read without any recorded error: every numbered key has a version *)
-Lemma versions_fold_ok : forall l nums keys e nums' keys' e',
-  versions_fold l nums keys e = (nums', keys', e') -> has_errors e' = false ->
-  has_errors e = false /\ (nums = keys -> nums' = keys').
+Lemma versions_fold_ok : forall l nums keys e nums' keys' e' ab,
+  versions_fold l nums keys e = (nums', keys', e', ab) -> has_errors e' = false ->
+  has_errors e = false /\ ab = false /\ (nums = keys -> nums' = keys').
 Proof.
-  induction l as [|[k body] rest IH]; intros nums keys e nums' keys' e' H He'; cbn [versions_fold] in H.
+  induction l as [|[k bd] rest IH]; intros nums keys e nums' keys' e' ab H He'; cbn [versions_fold] in H.
   - inversion H; subst; auto.
-  - destruct (vparse k) as [num| |]; destruct body;
-      apply IH in H; try assumption; destruct H as [He Hk];
+  - destruct (vparse k) as [num| |]; destruct bd;
+      try (inversion H; subst; rewrite ?has_errors_app in He'; cbn in He';
+           rewrite ?Bool.orb_true_r in He'; discriminate);
+      apply IH in H; try assumption; destruct H as (He & Hab & Hk);
       rewrite ?has_errors_app in He; cbn in He; rewrite ?Bool.orb_true_r in He; try discriminate.
-    split; [assumption|]. intros ->. now apply Hk.
+    repeat split; try assumption. intros ->. now apply Hk.
 Qed.
 
-Lemma versions_value_ok l nums keys e :
-  versions_value l = (nums, keys, e) -> has_errors e = false -> keys = nums.
+Lemma versions_fold_aborted : forall l nums keys e nums' keys' e',
+  versions_fold l nums keys e = (nums', keys', e', true) -> has_errors e' = true.
 Proof.
-  unfold versions_value. destruct (versions_fold l [] [] []) as [[n k] e0] eqn:F.
-  intros H He. inversion H; subst; clear H.
-  assert (He0 : has_errors e0 = false).
-  { destruct (fst (vnums_padding nums)); rewrite ?has_errors_app in He;
-      repeat (apply Bool.orb_false_iff in He as [He ?]); assumption. }
-  destruct (versions_fold_ok _ _ _ _ _ _ _ F He0) as [_ Hk]. symmetry. now apply Hk.
+  induction l as [|[k bd] rest IH]; intros nums keys e nums' keys' e' H; cbn [versions_fold] in H.
+  - discriminate.
+  - destruct bd; try (eapply IH; exact H).
+    inversion H; subst. rewrite has_errors_app. cbn. apply Bool.orb_true_r.
+Qed.
+
+Lemma versions_value_ok l nums keys e ab :
+  versions_value l = (nums, keys, e, ab) -> has_errors e = false -> keys = nums.
+Proof.
+  unfold versions_value. destruct (versions_fold l [] [] []) as [[[n k] e0] ab0] eqn:F.
+  destruct ab0.
+  - intros H He. inversion H; subst. rewrite (versions_fold_aborted _ _ _ _ _ _ _ F) in He. discriminate.
+  - intros H He. inversion H; subst; clear H.
+    assert (He0 : has_errors e0 = false).
+    { destruct (fst (vnums_padding nums)); rewrite ?has_errors_app in He;
+        repeat (apply Bool.orb_false_iff in He as [He ?]); assumption. }
+    destruct (versions_fold_ok _ _ _ _ _ _ _ _ F He0) as (_ & _ & Hk). symmetry. now apply Hk.
+Qed.
+
+Lemma versions_value_aborted l nums keys e :
+  versions_value l = (nums, keys, e, true) -> has_errors e = true.
+Proof.
+  unfold versions_value. destruct (versions_fold l [] [] []) as [[[n k] e0] ab0] eqn:F.
+  destruct ab0; intros H; inversion H; subst.
+  eapply versions_fold_aborted; eauto.
 Qed.
 
 Definition pinv (st : pst) : Prop :=
@@ -272,7 +293,12 @@ Proof.
            | H : inl _ = inr _ |- _ => discriminate H
            | H : context [match ?x with _ => _ end] |- _ => destruct x eqn:?
            end;
-    apply has_errors_add.
+    try apply has_errors_add;
+    rewrite has_errors_app;
+    try (cbn; apply Bool.orb_true_r).
+  match goal with
+  | Hv : versions_value _ = _ |- _ => rewrite (versions_value_aborted _ _ _ _ Hv); apply Bool.orb_true_r
+  end.
 Qed.
 
 Lemma run_inv : forall items st st2, pinv st -> run st items = inl st2 -> pinv st2.
@@ -407,7 +433,7 @@ Qed.
 
 Definition ok_tail : list item :=
   [IType (SStr (b "https://ocfl.io/1.0/spec/#inventory")); IAlg (SStr (b "sha512")); IHead (SStr (b "v1"));
-   IManifest true; IVersions (Some [(b "v1", true)])].
+   IManifest CObj; IVersions (VObj [(b "v1", BSome)])].
 
 (** the unguarded case: "id": "" *)
 Lemma blank_id_panics :
@@ -991,3 +1017,10 @@ Proof. repeat split; try (vm_compute; reflexivity); cbn [incr_from]; lia. Qed.
 Lemma cpi_example :
   cpi_walk vnum_eq_rust true 10 (mkV 5 3) (fun n => n =? 2) = Ok (Some (mkV 2 3)).
 Proof. vm_compute. reflexivity. Qed.
+
+(** * 8. the uriparse class: members and non-members *)
+Lemma colon_uri_examples :
+  c17_colon_uri (b ":") = true /\ c17_colon_uri (b "1:x") = true /\ c17_colon_uri (b "%3A:") = true /\
+  c17_colon_uri (b "urn:x") = false /\ c17_colon_uri (b "//h:1/p") = false /\ c17_colon_uri (b "a/b:c") = false /\
+  c17_colon_uri (b "") = false.
+Proof. repeat split; vm_compute; reflexivity. Qed.
